@@ -12,7 +12,7 @@ SLICE_S = 5
 OBS_SAMPLES = 1
 MAX_VALIDATE = 60
 NATIVE_PKGS_MAX = 3
-MAX_PATHS_PER_TASK = 100
+MAX_PATHS_PER_TASK = 3000
 ANCHOR_FILES = ['/repo/pkg/message/readwriter.go', '/repo/pkg/message/message.go']
 _state = {}
 
@@ -37,7 +37,7 @@ def bounds(tier):
             'decode': ('payload lengths {0,1,base-1,base,ext,ext+1,255} (v2) and {0,base-1,base,base+1} (v1)' if tier == 'quick'
                        else 'every payload length 0..256 and 300 (v2); {0,1,base-1,base,base+1,ext,255} (v1)') +
                       '; every payload byte and every spare-capacity byte symbolic; caller buffer capacity = max(len, ext)+2; '
-                      'messages with more than 40 string bytes: reduced length set (the NUL scan forks per string byte)',
+                      'messages whose string fields give more than 64 NUL-position combinations (the scan forks per string byte): quick only lengths that end before/inside the first string; thorough adds the full length when <= 4096 combinations',
             'appended_zeros': 'k = 1 (quick) / 1 and 7 (thorough)',
             'removed_zeros': 'payload assumed to end in z zero bytes, which are removed: (len,z) = (base,1),(ext,2) (quick); more pairs incl. all-but-one byte (thorough)'}
 
